@@ -5,7 +5,6 @@ import jax
 import jax.numpy as jnp
 
 from fdtdx.core.jax.pytrees import TreeClass, autoinit, frozen_field, frozen_private_field
-from fdtdx.core.misc import index_1d_array
 from fdtdx.interfaces.state import RecordingState
 
 
@@ -237,9 +236,14 @@ class LinearReconstructEveryK(TimeStepFilter):
         def linear_reconstruct():
             arr_idx = arr_indices[0]
 
-            prev_save_time = index_1d_array(self._time_to_arr_idx, arr_idx)
-            next_save_time = index_1d_array(self._time_to_arr_idx, arr_idx + 1)
-            interp_factor = (time_idx - prev_save_time) / (next_save_time - prev_save_time)
+            # the enclosing saved steps; looking slot 0 up through the time->slot map returned time 0 instead
+            # of the start step when start_recording_after > 0
+            prev_save_time = self._save_time_steps[arr_idx]
+            next_save_time = self._save_time_steps[arr_idx + 1]
+            # explicit default-float cast: int32 / int32 would give float32 even when x64 is enabled
+            interp_factor = (time_idx - prev_save_time).astype(float) / (next_save_time - prev_save_time).astype(
+                float
+            )
 
             prev_vals, next_vals = values[0], values[1]
             res = {}
